@@ -25,7 +25,21 @@ ASSUMPTIONS = ['sources outside the reference dialect (spec_lex = None) carry no
                'PICO-8 itself is not available: its title/byline rule is taken to be the first two comment lines, and the '
                'stats rule is Lua.get_title / get_byline (token 0 / token 2)']
 PARTIAL = ''
-CLAIM = dict(text='(filled in below)', note='', technique='Coq proof + correspondence + extracted monitor', design_ref='8 C19')
+CLAIM = dict(
+    text=("Theorems (Coq, closed under the global context) about the same model and reference lexer as C01, for every token "
+          "sequence of the dialect, configuration and keep file: C19_header - the first two comments that precede any code "
+          "are written verbatim, each followed by a line break, as a prefix of the output (header_text); under the reference "
+          "rules the output starts with exactly these comment tokens each followed by a newline token, contains no other "
+          "comment token, has as many code tokens as the input, and the title/byline rule of stats reads the two comments "
+          "(C19_titles); C19_holds - holds_C19 is true of the model's output; C19_total; C19_end_to_end - composed with the "
+          "lexer worker's lex_agrees_code (C07), from the source bytes, no hypothesis about the lexer left. "
+          "Tie: correspondence of lexer model + writer model with the real writer on the header-shape enumerator (0-3 leading "
+          "comments x comment forms x blank lines/spaces x LF/CRLF x code on the same/next line), generated programs and both "
+          "CLI paths; the extracted holds_C19 on the implementation's real output plus Lua.get_title()/get_byline()."),
+    note=("Trusted: as C01. PICO-8 itself is not available offline; its rule is taken to be the first two comment lines, the "
+          "stats rule is token 0 / token 2 as in Lua.get_title / get_byline."),
+    technique='Coq proof (induction over the writer with header counters as invariant) + correspondence + extracted monitor',
+    design_ref='8 C19')
 
 _CTX = {}
 _SELF = 'props.c19'
